@@ -376,6 +376,13 @@ RECURSIVE PLower(_, _)
 PLower(s, i) == IF i > Len(s) THEN ""
                 ELSE LET k == PIndexIn(Ch(s, i), UpperA, 1) IN (IF k >= 0 THEN Ch(LowerA, k + 1) ELSE Ch(s, i)) \o PLower(s, i + 1)
 StrLower(s) == PLower(s, 1)
+(* first position (from 1) of the one-character string c in s, 0 if absent; number of leading characters equal to c *)
+RECURSIVE PFind(_, _, _)
+PFind(s, c, i) == IF i > Len(s) THEN 0 ELSE IF Ch(s, i) = c THEN i ELSE PFind(s, c, i + 1)
+StrFind(s, c) == PFind(s, c, 1)
+RECURSIVE PLead(_, _, _)
+PLead(s, c, i) == IF i > Len(s) \/ Ch(s, i) # c THEN 0 ELSE 1 + PLead(s, c, i + 1)
+StrLead(s, c) == PLead(s, c, 1)
 
 (* n limbs of w bits of a non-negative integer, least significant first *)
 ZLimbs(a, w, n) == [i \in 1..n |-> POut(SFDiv(SFDiv(PIn(a), Mk(FALSE, PPow2(w * (i - 1))))[1],
